@@ -17,6 +17,8 @@ pub struct ScriptIo {
     pub at_end: EndAnswer,
     pub reads: Arc<Mutex<ReadLog>>,
     pub sink: Arc<Mutex<Vec<u8>>>,
+    /// `write` accepts at most this many bytes per call (short writes)
+    pub write_limit: usize,
 }
 
 #[derive(Clone, Copy, Debug, PartialEq, Eq)]
@@ -42,6 +44,7 @@ impl ScriptIo {
             at_end: EndAnswer::Eof,
             reads: Arc::new(Mutex::new(ReadLog::default())),
             sink: Arc::new(Mutex::new(Vec::new())),
+            write_limit: usize::MAX,
         }
     }
     pub fn push_segments(&mut self, segs: Vec<Vec<u8>>) {
@@ -82,8 +85,9 @@ impl Read for ScriptIo {
 
 impl Write for ScriptIo {
     fn write(&mut self, buf: &[u8]) -> io::Result<usize> {
-        self.sink.lock().unwrap().extend_from_slice(buf);
-        Ok(buf.len())
+        let n = buf.len().min(self.write_limit);
+        self.sink.lock().unwrap().extend_from_slice(&buf[..n]);
+        Ok(n)
     }
     fn flush(&mut self) -> io::Result<()> {
         Ok(())
@@ -140,4 +144,85 @@ pub fn parse_responses_checked(stream: &[u8]) -> (Vec<mpd_protocol::response::Re
             Err(e) => return (out, Err(e)),
         }
     }
+}
+
+/// Like `wire_of_command` / `wire_of_list`, over a transport that accepts at most `limit` bytes
+/// per `write` call.
+pub fn wire_sync_limited(item: WireItem, limit: usize) -> Result<Vec<u8>, String> {
+    let mut io = ScriptIo::new(vec![GREETING.to_vec()]);
+    io.write_limit = limit;
+    let sink = io.sink.clone();
+    let mut conn = Connection::connect(io).expect("harness greeting accepted");
+    match item {
+        WireItem::Command(c) => conn.send(c),
+        WireItem::List(l) => conn.send_list(l),
+    }
+    .map_err(|e| format!("{e:?}"))?;
+    let v = sink.lock().unwrap().clone();
+    Ok(v)
+}
+
+pub enum WireItem {
+    Command(Command),
+    List(CommandList),
+}
+
+/// Transport for the asynchronous connection: serves the greeting, then nothing; accepts at most
+/// `limit` bytes per `poll_write`.
+pub struct AsyncSinkIo {
+    greeting_done: bool,
+    limit: usize,
+    pub sink: Arc<Mutex<Vec<u8>>>,
+}
+
+impl tokio::io::AsyncRead for AsyncSinkIo {
+    fn poll_read(mut self: std::pin::Pin<&mut Self>, _cx: &mut std::task::Context<'_>, buf: &mut tokio::io::ReadBuf<'_>) -> std::task::Poll<io::Result<()>> {
+        if !self.greeting_done {
+            self.greeting_done = true;
+            buf.put_slice(GREETING);
+            return std::task::Poll::Ready(Ok(()));
+        }
+        std::task::Poll::Pending
+    }
+}
+
+impl tokio::io::AsyncWrite for AsyncSinkIo {
+    fn poll_write(self: std::pin::Pin<&mut Self>, _cx: &mut std::task::Context<'_>, buf: &[u8]) -> std::task::Poll<io::Result<usize>> {
+        let n = buf.len().min(self.limit);
+        self.sink.lock().unwrap().extend_from_slice(&buf[..n]);
+        std::task::Poll::Ready(Ok(n))
+    }
+    fn poll_flush(self: std::pin::Pin<&mut Self>, _cx: &mut std::task::Context<'_>) -> std::task::Poll<io::Result<()>> {
+        std::task::Poll::Ready(Ok(()))
+    }
+    fn poll_shutdown(self: std::pin::Pin<&mut Self>, _cx: &mut std::task::Context<'_>) -> std::task::Poll<io::Result<()>> {
+        std::task::Poll::Ready(Ok(()))
+    }
+}
+
+/// Polls a future that never has to wait (all transport answers are immediate).
+pub fn drive_ready<F: std::future::Future>(fut: F) -> Result<F::Output, String> {
+    let waker = crate::engines::loopmc::noop_waker();
+    let mut cx = std::task::Context::from_waker(&waker);
+    let mut fut = std::pin::pin!(fut);
+    for _ in 0..1_000_000 {
+        if let std::task::Poll::Ready(v) = fut.as_mut().poll(&mut cx) {
+            return Ok(v);
+        }
+    }
+    Err("future still pending after 1000000 polls".into())
+}
+
+/// Bytes `AsyncConnection::send` / `send_list` put on the wire over a short-writing transport.
+pub fn wire_async_limited(item: WireItem, limit: usize) -> Result<Vec<u8>, String> {
+    let io = AsyncSinkIo { greeting_done: false, limit, sink: Arc::new(Mutex::new(Vec::new())) };
+    let sink = io.sink.clone();
+    let mut conn = drive_ready(mpd_protocol::AsyncConnection::connect(io))?.map_err(|e| format!("{e:?}"))?;
+    match item {
+        WireItem::Command(c) => drive_ready(conn.send(c))?,
+        WireItem::List(l) => drive_ready(conn.send_list(l))?,
+    }
+    .map_err(|e| format!("{e:?}"))?;
+    let v = sink.lock().unwrap().clone();
+    Ok(v)
 }
